@@ -392,7 +392,8 @@ func (iter *iterator) Current() ([]byte, []byte, error) {
 	if op == OperationMerge {
 		var valMerged []byte
 		valMerged, err = iter.ss.getMerged(key, val, iter.cursors[0].ssIndex-1,
-			iter.iteratorOptions.base, ReadOptions{})
+			iter.iteratorOptions.base,
+			ReadOptions{SkipLowerLevel: iter.iteratorOptions.SkipLowerLevel})
 		if err != nil {
 			return nil, nil, err
 		}
